@@ -223,3 +223,108 @@ pub fn fdt_parse_summary(xml: &[u8]) -> Option<FdtSummary> {
         files,
     })
 }
+
+/// What `ObjectReceiver::attach_fdt` reads for one `File` of a parsed FDT instance
+#[derive(Debug, Clone)]
+pub struct FdtAttachEntry {
+    /// the `TOI` attribute parsed as `get_file` compares it
+    pub toi: u128,
+    /// `FdtInstance::get_oti_for_file(file)`
+    pub oti: Option<oti::Oti>,
+    /// `File::get_transfer_length()`
+    pub transfer_length: u64,
+    /// `File::content_length`
+    pub content_length: Option<u64>,
+    /// `File::content_encoding` mapped to `Cenc` as `attach_fdt` does (absent / unknown = `Null`)
+    pub cenc: lct::Cenc,
+    /// `File::content_md5`
+    pub content_md5: Option<String>,
+    /// `File::get_object_cache_control(..) == ObjectCacheControl::NoCache`
+    pub no_cache: bool,
+}
+
+/// `FdtInstance::parse` followed by the accessors `ObjectReceiver::attach_fdt` uses, for every `File` element
+/// (`None` when the parser rejects the document, `Some(vec![])` when there is no `File` child)
+pub fn fdt_attach_entries(xml: &[u8]) -> Option<Vec<FdtAttachEntry>> {
+    use crate::common::fdtinstance::FdtInstance;
+    use crate::receiver::writer::ObjectCacheControl;
+    let inst = FdtInstance::parse(xml).ok()?;
+    let mut out = Vec::new();
+    if let Some(files) = inst.file.as_ref() {
+        for f in files {
+            // `get_file` compares the attribute with `toi.to_string()`: only canonical decimals can match
+            let toi: u128 = match f.toi.parse::<u128>() {
+                Ok(t) if t.to_string() == f.toi => t,
+                _ => continue,
+            };
+            out.push(FdtAttachEntry {
+                toi,
+                oti: inst.get_oti_for_file(f),
+                transfer_length: f.get_transfer_length(),
+                content_length: f.content_length,
+                cenc: match &f.content_encoding {
+                    Some(s) => s.as_str().try_into().unwrap_or(lct::Cenc::Null),
+                    None => lct::Cenc::Null,
+                },
+                content_md5: f.content_md5.clone(),
+                no_cache: f.get_object_cache_control(inst.get_expiration_date())
+                    == ObjectCacheControl::NoCache,
+            });
+        }
+    }
+    Some(out)
+}
+
+/// A fresh FEC decoder of the scheme of `oti`, built as `BlockDecoder::init` builds it, fed with `symbols`
+/// (`(esi, payload)`, in order) as `BlockDecoder::push` feeds it; returns the source block once a decode succeeds
+/// (`None`: decoder cannot be built, scheme without decoder, or not decodable from these symbols).
+pub fn fec_try_decode(
+    oti: &oti::Oti,
+    nb_source_symbols: usize,
+    block_size: usize,
+    sbn: u32,
+    symbols: &[(u32, Vec<u8>)],
+) -> Option<Vec<u8>> {
+    use crate::fec::{self, FecDecoder};
+    let mut decoder: Box<dyn FecDecoder> = match oti.fec_encoding_id {
+        oti::FECEncodingID::NoCode => Box::new(fec::nocode::NoCodeDecoder::new(nb_source_symbols)),
+        oti::FECEncodingID::ReedSolomonGF28 | oti::FECEncodingID::ReedSolomonGF28UnderSpecified => {
+            Box::new(
+                fec::rscodec::RSGalois8Codec::new(
+                    nb_source_symbols,
+                    oti.max_number_of_parity_symbols as usize,
+                    oti.encoding_symbol_length as usize,
+                )
+                .ok()?,
+            )
+        }
+        oti::FECEncodingID::ReedSolomonGF2M => return None,
+        oti::FECEncodingID::RaptorQ => match oti.scheme_specific.as_ref() {
+            Some(oti::SchemeSpecific::RaptorQ(scheme)) => Box::new(fec::raptorq::RaptorQDecoder::new(
+                sbn,
+                nb_source_symbols,
+                oti.encoding_symbol_length as usize,
+                scheme,
+            )),
+            _ => return None,
+        },
+        oti::FECEncodingID::Raptor => {
+            oti.scheme_specific.as_ref()?;
+            Box::new(fec::raptor::RaptorDecoder::new(nb_source_symbols, block_size))
+        }
+    };
+    let mut completed = false;
+    for (esi, payload) in symbols {
+        if completed {
+            break;
+        }
+        decoder.push_symbol(payload, *esi);
+        if decoder.can_decode() {
+            completed = decoder.decode();
+        }
+    }
+    if !completed {
+        return None;
+    }
+    decoder.source_block().ok().map(|b| b.to_vec())
+}
